@@ -66,7 +66,7 @@ CONTRACTS = {
 }
 
 
-class variable_ndarray:
+class variable_ndarray(numpy.ndarray):
     def __new__(cls, input_array, variables=[], index=[], dtype=numpy.int64):
         arr = numpy.asarray(input_array, dtype=dtype).view(cls)
         if len(variables) == 0:
@@ -117,7 +117,7 @@ class variable_ndarray:
             dtype=dtype)
 
 
-class ge_polyhedron:
+class ge_polyhedron(variable_ndarray):
     def __new__(cls, input_array, variables=[], index=[], dtype=numpy.int64):
         return variable_ndarray.__new__(cls, input_array, variables=variables, index=index, dtype=dtype)
 
@@ -258,7 +258,7 @@ class ge_polyhedron:
             return ge_polyhedron.ineqs_satisfied(self, numpy.array([points]))[0] == 1
 
 
-class integer_ndarray:
+class integer_ndarray(variable_ndarray):
     def reduce2d(self, method="first", axis=0):
         if not self.ndim == 2:
             raise ValueError()
@@ -380,7 +380,7 @@ class integer_ndarray:
         return integer_ndarray(result)
 
 
-class boolean_ndarray:
+class boolean_ndarray(variable_ndarray):
     @staticmethod
     def from_list(lst, context):
         if len(lst) == 0:
@@ -398,7 +398,7 @@ class boolean_ndarray:
             return [boolean_ndarray.to_list(r, skip_virtual_variables=skip_virtual_variables) for r in self]
 
 
-class ge_polyhedron_config:
+class ge_polyhedron_config(ge_polyhedron):
     def __new__(cls, input_array, default_prio_vector=None, variables=[], index=[], dtype=numpy.int64):
         arr = ge_polyhedron.__new__(cls, input_array, variables=variables, index=index, dtype=dtype)
         arr.default_prio_vector = default_prio_vector if default_prio_vector is not None else -numpy.ones((arr.A.shape[1]))
